@@ -33,6 +33,7 @@ func checkC13(c *Ctx) {
 	c.Decides("STORE-OR-ERR: in the Nexus TRANSLATE parser every path that has read a key either stores the (key, value) pair or records an error (no entry is dropped silently, whatever token ends it)")
 	c.translateStoreOrErr("STORE-OR-ERR")
 	c.Floor("STORE-OR-ERR", 1)
+	c.Floor("FLOATFMT", 2)
 	c.Floor("ALIAS", 2)
 	c.Floor("FIRST", 8)
 	c.Floor("PATH", 6)
@@ -624,6 +625,19 @@ func (c *Ctx) phyloxmlTables() {
 	rd := c.Func("io/phyloxml", "", "cladeToTree")
 	if wc == nil || ww == nil || rd == nil {
 		return
+	}
+	// numbers written to PhyloXML go through FormatFloat(x, f, -1, 64) wherever they are formatted,
+	// including the string accessors of package tree the writer calls (LengthString, SupportString)
+	{
+		var fw []*FuncInfo
+		for _, fi := range c.cone([]*FuncInfo{ww}, 4) {
+			sig := fi.Obj.Type().(*types.Signature)
+			retString := sig.Results().Len() == 1 && sig.Results().At(0).Type().String() == "string"
+			if fi.Pkg == ww.Pkg || (fi.Pkg.PkgPath == modPath+"/tree" && retString) {
+				fw = append(fw, fi)
+			}
+		}
+		c.newickFloats(fw, nil)
 	}
 	// the writer = WritePhyloXML and every function of the package it reaches (writePhylogeny may be
 	// inlined or split further without changing what is written)
